@@ -20,20 +20,28 @@ pub fn generate_report(
 ) {
     let mut solstat_report = String::from("");
 
-    if vulnerabilities.len() > 0 {
+    //A category part is rendered only if the category has at least one finding
+    if has_findings(vulnerabilities.values()) {
         solstat_report.push_str(&generate_vulnerability_report(vulnerabilities));
         solstat_report.push_str("\n\n");
     }
 
-    if optimizations.len() > 0 {
+    if has_findings(optimizations.values()) {
         solstat_report.push_str(&generate_optimization_report(optimizations));
         solstat_report.push_str("\n\n");
     }
 
-    if qa.len() > 0 {
+    if has_findings(qa.values()) {
         solstat_report.push_str(&generate_qa_report(qa));
         solstat_report.push_str("\n\n");
     }
 
     fs::write("solstat_report.md", solstat_report).expect("Unable to solstat_report to file");
+}
+
+//Returns true if any pattern has a file with at least one reported line
+fn has_findings<'a>(
+    mut matches: impl Iterator<Item = &'a Vec<(String, BTreeSet<LineNumber>)>>,
+) -> bool {
+    matches.any(|files| files.iter().any(|(_, lines)| lines.len() > 0))
 }
